@@ -2,7 +2,7 @@
 import ast
 
 from .. import compq, pyq
-from ..pysrc import dotted, norm
+from ..pysrc import dotted, norm, flat
 
 R, CP, MC = compq.RM, compq.CP, compq.MC
 
@@ -18,7 +18,7 @@ def check(ctx, src):
     ctx.require(me is not None, "macroexpand not found")
     m = pyq.contains(me, lambda n: isinstance(n, ast.Assign) and norm(n.targets[0]) == "m" and isinstance(n.value, ast.BoolOp))
     ctx.require(m is not None, "macroexpand: lookup expression not found")
-    t = " ".join(ast.unparse(m.value).split())
+    t = flat(m.value)
     ctx.check("for d in [compiler.extra_macros, *(s['macros'] for s in reversed(compiler.local_state_stack))] if fn in d" in t, "MAC-ORDER", f"{MC}|macroexpand|compiler part", "extra macros must be consulted first, then local states from innermost to outermost",
               MC, m.lineno, witness="a local macro shadows hy.eval's :macros, or an outer local macro shadows an inner one", detail="[extra_macros, *reversed(local states)]")
     ctx.check("for mod in (module, builtins) if fn in getattr(mod, '_hy_macros', ())" in t and t.index("compiler.extra_macros") < t.index("(module, builtins)"), "MAC-ORDER", f"{MC}|macroexpand|module part",
@@ -53,13 +53,13 @@ def check(ctx, src):
     md = rm.func("compile_macro_def")
     ctx.require(md is not None, "compile_macro_def not found")
     g = pyq.contains(md, lambda n: isinstance(n, ast.If) and norm(n.test) == "compiler.is_in_local_state()")
-    t = " ".join(ast.unparse(g).split()) if g is not None else ""
+    t = flat(g) if g is not None else ""
     ctx.check(g is not None and "state = compiler.local_state_stack[-1]" in t and "state['macros'][mangle(name)] = compiler.eval(fn_def)" in t and "S(local_macro_name(name))" in t, "MAC-INSTALL", f"{R}|compile_macro_def|local",
               "inside a local state a macro must be stored in the innermost state under its mangled name (and bound to its reserved local variable)", R, md.lineno, detail="local_state_stack[-1]['macros'][mangle(name)]")
-    ctx.check("dotted('hy.macros.macro'), str(name)" in " ".join(ast.unparse(md).split()) and "S('eval-and-compile')" in " ".join(ast.unparse(md).split()), "MAC-INSTALL", f"{R}|compile_macro_def|module", "at module level a macro is installed with hy.macros.macro under eval-and-compile", R, md.lineno, detail="eval-and-compile (hy.macros.macro name)")
+    ctx.check("dotted('hy.macros.macro'), str(name)" in flat(md) and "S('eval-and-compile')" in flat(md), "MAC-INSTALL", f"{R}|compile_macro_def|module", "at module level a macro is installed with hy.macros.macro under eval-and-compile", R, md.lineno, detail="eval-and-compile (hy.macros.macro name)")
     rq = rm.func("compile_require")
     ctx.require(rq is not None, "compile_require not found")
-    t = " ".join(ast.unparse(rq).split())
+    t = flat(rq)
     ctx.check("if (rest or not readers) and compiler.is_in_local_state():" in t and "require(module_name, compiler.local_state_stack[-1]['macros'], assignments=assignments, prefix=prefix, compiler=compiler)" in t, "MAC-INSTALL", f"{R}|compile_require|local",
               "inside a local state require must install into the innermost state", R, rq.lineno, detail="local_state_stack[-1]['macros']")
     ctx.check("elif (rest or not readers) and require(module_name, compiler.module, assignments=assignments, prefix=prefix, compiler=compiler):" in t, "MAC-INSTALL", f"{R}|compile_require|module", "at module level require installs into the module", R, rq.lineno, detail="compiler.module")
@@ -67,7 +67,7 @@ def check(ctx, src):
     ctx.check(shape == ["compile_import", "compile_require"], "MAC-INSTALL", f"{R}|assignment_shape users", f"assignment_shape is used by {shape}", R, 0, detail=str(shape))
     rf = mc.func("require")
     ctx.require(rf is not None, "require not found")
-    t = " ".join(ast.unparse(rf).split())
+    t = flat(rf)
     ctx.check("source_exports = getattr(source_module, '_hy_export_macros', [k for k in source_macros.keys() if not k.startswith('_')])" in t and "if assignments == 'ALL' or k in source_exports" in t, "MAC-INSTALL", f"{MC}|require|exports",
               "`*` must bring in _hy_export_macros or, without it, the macros not starting with an underscore; 'ALL' everything", MC, rf.lineno, detail="_hy_export_macros / no leading underscore")
     ctx.check("if prefix: prefix += '.'" in t and "alias = mangle(prefix + alias)" in t and "_name = mangle(name)" in t and "target_macros[alias] = source_macros[_name]" in t, "MAC-INSTALL", f"{MC}|require|names",
@@ -78,18 +78,18 @@ def check(ctx, src):
     # --- warning
     w = cp.func("HyASTCompiler.warn_on_core_shadow")
     ctx.require(w is not None, "warn_on_core_shadow not found")
-    t = " ".join(ast.unparse(w).split())
+    t = flat(w)
     ctx.check("mangle(name) in getattr(builtins, '_hy_macros', {}) and self.get_local_option('warn_on_core_shadow', True)" in t and "warnings.warn(" in t and "RuntimeWarning" in t, "MAC-WARN", f"{CP}|warn_on_core_shadow|test",
               "the warning must test the mangled name against the core macros and honour the pragma", CP, w.lineno, witness="(defmacro do-mac [] 1) does not warn (its core name is do_mac)", detail="mangle(name) in builtins._hy_macros and option")
     ctx.check(pyq.contains(md, lambda n: isinstance(n, ast.Call) and norm(n) == "compiler.warn_on_core_shadow(name)") is not None, "MAC-WARN", f"{R}|compile_macro_def|warns", "defmacro does not warn about shadowing a core macro", R, md.lineno, detail="warn_on_core_shadow(name)")
-    tr = " ".join(ast.unparse(rf).split())
+    tr = flat(rf)
     ctx.check("if compiler: compiler.warn_on_core_shadow(prefix + alias)" in tr and tr.index("compiler.warn_on_core_shadow(prefix + alias)") < tr.index("target_macros[alias] = source_macros[_name]"), "MAC-WARN", f"{MC}|require|warns",
               "require must warn (with the unmangled, prefixed alias) before installing", MC, rf.lineno, detail="warn before install")
     glo = cp.func("HyASTCompiler.get_local_option")
-    t = " ".join(ast.unparse(glo).split()) if glo else ""
+    t = flat(glo) if glo else ""
     ctx.check("for s in reversed(self.local_state_stack) if key in s" in t, "MAC-WARN", f"{CP}|get_local_option", "local options are looked up from the innermost state outwards", CP, 0, detail="reversed(stack)")
     pg = rm.func("compile_pragma")
-    t = " ".join(ast.unparse(pg).split()) if pg else ""
+    t = flat(pg) if pg else ""
     ctx.check("compiler.local_state_stack[-1]['warn_on_core_shadow'] = bool(compiler.eval(value))" in t, "MAC-WARN", f"{R}|compile_pragma|option", "the pragma must set the option in the innermost local state", R, 0, detail="stack[-1]")
     ctx.floor("MAC-INSTALL", 8)
 
